@@ -80,7 +80,8 @@ func (b *Generator) Bitset(idx uint) ([]byte, error) {
 	if b.nextBit != b.sections {
 		return nil, errors.New("bloom not fully generated yet")
 	}
-	if idx >= b.sections {
+	if idx >= types.BloomBitLength {
+		// idx selects one of the bloom's bits, not a block of the section
 		return nil, errSectionOutOfBounds
 	}
 	return b.blooms[idx], nil
